@@ -22,6 +22,19 @@ Definition lift_m {A} (m : M A) (f : A -> val) : state -> outcome mfail val * st
            | (OutOfFuel, s') => (Fail FNoFuel, s')
            end.
 
+(* the same in continuation-passing style (the form the evaluator calls) *)
+Definition MK := (val -> state -> outcome mfail val * state)%type.
+Definition lift_k {A} (m : M A) (f : A -> val) (s : state) (k : MK) : outcome mfail val * state :=
+  match m s with
+  | (Val a, s') => k (f a) s'
+  | (Panicking, s') => (Panic, s')
+  | (UB u, s') => (Fail (FUB u), s')
+  | (AllocAbort x y, s') => (Fail (FAllocAbort x y), s')
+  | (Abort, s') => (Fail FAbort, s')
+  | (OutOfFuel, s') => (Fail FNoFuel, s')
+  end.
+Definition pure_k (v : val) (s : state) (k : MK) : outcome mfail val * state := k v s.
+
 Definition vunit {A} (_ : A) : val := VUnit.
 Definition header_val (x : nat * block) : val :=
   VStruct "Header" [("len", VInt (h_len (snd x))); ("cap", VInt (h_cap (snd x))); ("alignment", VInt (h_align (snd x)))].
@@ -29,45 +42,208 @@ Definition layout_val (l : Z * Z) : val := VCtor "Layout" [VInt (fst l); VInt (s
 Definition ptr_val (o : option nat) : val :=
   match o with Some b => VCtor "Block" [VObj b] | None => VCtor "Null" [] end.
 
+(* element pointers and elements as IR values *)
+Definition eptr_val (p : eptr) : val := VPtr p.
+Definition val_eptr (v : val) : option eptr := match v with VPtr p => Some p | _ => None end.
+Definition opt_elem_val (o : option elem) : val :=
+  match o with Some e => VCtor "Some" [VInt e] | None => VCtor "None" [] end.
+
+(* the arguments of a constructor value of a given name *)
+Definition ctor_is (c : string) (v : val) : option (list val) :=
+  match v with
+  | VCtor d args => if String.eqb c d then Some args else None
+  | _ => None
+  end.
+
 Section Prims.
   Variable cfg : tcfg.
   Variable ncap : Z -> option Z.
 
-  Definition prim (f : string) (args : list val) : state -> outcome mfail val * state :=
-    match f, args with
-    (* the methods of the vector that translated bodies call *)
-    | ".is_default", [VObj v] => lift_m (is_default v) VBool
-    | ".len", [VObj v] => lift_m (len v) VInt
-    | ".capacity", [VObj v] => lift_m (capacity v) VInt
-    | ".alignment", [VObj v] => lift_m (alignment cfg v) VInt
-    | ".header", [VObj v] => lift_m (bind (vec_handle v) hdr_block) header_val
-    | ".grow", [VObj v; VInt c; VInt a] => lift_m (grow cfg v c a) vunit
-    | ".reserve_exact", [VObj v; VInt n] => lift_m (reserve_exact cfg v n) vunit
-    | ".shrink_to_fit", [VObj v] => lift_m (shrink_to_fit cfg v) vunit
-    (* the crate's scalar helpers: by their Scalar twins (Equiv.v proves each helper's body equal to
-       its twin for all machine-word arguments) *)
-    | "next_capacity::<T>", [VInt c] => lift_m (lift_opt (ncap c)) VInt
-    | "make_layout::<T>", [VInt c; VInt a] => lift_m (lift_opt (make_layout cfg c a)) layout_val
-    | "max_align::<T>", [] => fun s => (Norm (VInt (max_align cfg)), s)
-    (* the one-word handle and raw pointers *)
-    | "field:buf", [VObj v] => fun s => (Norm (VCtor "Buf" [VObj v]), s)
-    | ".as_ptr", [VCtor "Buf" [VObj v]] => fun s => (Norm (VCtor "BufPtr" [VObj v]), s)
-    | ".is_null", [VCtor "Null" []] => fun s => (Norm (VBool true), s)
-    | ".is_null", [VCtor "Block" _] => fun s => (Norm (VBool false), s)
-    | ".cast::<Header>", [p] => fun s => (Norm p, s)
-    | "NonNull::new_unchecked", [p] => fun s => (Norm p, s)
-    (* the global allocator *)
-    | "alloc", [VCtor "Layout" [VInt sz; VInt al]] => lift_m (do_alloc sz al) ptr_val
-    | "realloc", [VCtor "BufPtr" [VObj v]; VCtor "Layout" [VInt os; VInt oa]; VInt ns] =>
-        lift_m (bind (vec_handle v) (fun h => do_realloc h os oa ns)) ptr_val
-    | "handle_alloc_error", [VCtor "Layout" [VInt sz; VInt al]] => fun s => (Fail (FAllocAbort sz al), s)
-    (* ptr::write(new_buf.cast::<Header>(), header) *)
-    | "write", [VCtor "Block" [VObj b]; VStruct "Header" [("len", VInt l); ("cap", VInt c); ("alignment", VInt a)]] =>
-        lift_m (bind (get_block b) (fun bl =>
-                  bind (if HEADER_SIZE <=? b_size bl then ret tt else ub OutOfBlock) (fun _ =>
-                  put_block b (with_hdr bl l c a)))) vunit
-    (* self.buf = ... *)
-    | "set:self.buf", [VCtor "Block" [VObj b]; VObj v] => lift_m (set_handle v (Some (At b 0))) vunit
-    | _, _ => fun s => (Stuck ("prim: " ++ f)%string, s)
-    end.
+  Definition stuck (f : string) (s : state) : outcome mfail val * state :=
+    (Stuck ("prim: " ++ f)%string, s).
+
+  (* Every branch is fully applied to the state and the continuation, so that symbolic evaluation
+     never leaves a function-valued match behind. *)
+  Definition prim (f : string) (args : list val) (s : state) (k : MK) : outcome mfail val * state :=
+    let is := String.eqb f in
+    (* ---- the methods of the vector that translated bodies call ---- *)
+    if is ".is_default" then
+      match args with [VObj v] => lift_k (is_default v) VBool s k | _ => stuck f s end
+    else if is ".len" then
+      match args with [VObj v] => lift_k (len v) VInt s k | _ => stuck f s end
+    else if is ".capacity" then
+      match args with [VObj v] => lift_k (capacity v) VInt s k | _ => stuck f s end
+    else if is ".alignment" then
+      match args with [VObj v] => lift_k (alignment cfg v) VInt s k | _ => stuck f s end
+    else if is ".header" then
+      match args with [VObj v] => lift_k (bind (vec_handle v) hdr_block) header_val s k | _ => stuck f s end
+    else if is ".grow" then
+      match args with [VObj v; VInt c; VInt a] => lift_k (grow cfg v c a) vunit s k | _ => stuck f s end
+    else if is ".reserve_exact" then
+      match args with [VObj v; VInt n] => lift_k (reserve_exact cfg v n) vunit s k | _ => stuck f s end
+    else if is ".shrink_to_fit" then
+      match args with [VObj v] => lift_k (shrink_to_fit cfg v) vunit s k | _ => stuck f s end
+    else if is ".reserve" then
+      match args with [VObj v; VInt n] => lift_k (reserve cfg ncap v n) vunit s k | _ => stuck f s end
+    else if is ".truncate" then
+      match args with [VObj v; VInt n] => lift_k (truncate cfg v n) vunit s k | _ => stuck f s end
+    else if is ".set_len" then
+      match args with [VObj v; VInt n] => lift_k (set_len v n) vunit s k | _ => stuck f s end
+    else if is ".data" then
+      match args with [VObj v] => lift_k (data cfg v) eptr_val s k | _ => stuck f s end
+    else if is ".as_mut_ptr" then
+      match args with [VObj v] => lift_k (as_ptr cfg v) eptr_val s k | _ => stuck f s end
+    else if is ".as_ptr" then
+      match args with
+      | [VObj v] => lift_k (as_ptr cfg v) eptr_val s k
+      | [x] => match ctor_is "Buf" x with                      (* NonNull::as_ptr of the handle *)
+               | Some [VObj v] => k (VCtor "BufPtr" [VObj v]) s
+               | _ => stuck f s
+               end
+      | _ => stuck f s
+      end
+    (* ---- the crate's scalar helpers: by their Scalar twins (Equiv.v proves each helper's body
+            equal to its twin for all machine-word arguments) ---- *)
+    else if is "next_capacity::<T>" then
+      match args with [VInt c] => lift_k (lift_opt (ncap c)) VInt s k | _ => stuck f s end
+    else if is "make_layout::<T>" then
+      match args with [VInt c; VInt a] => lift_k (lift_opt (make_layout cfg c a)) layout_val s k | _ => stuck f s end
+    else if is "max_align::<T>" then
+      match args with [] => k (VInt (max_align cfg)) s | _ => stuck f s end
+    else if is "next_aligned" then
+      match args with [VInt n; VInt a] => lift_k (lift_opt (next_aligned n a)) VInt s k | _ => stuck f s end
+    (* ---- the one-word handle and raw pointers ---- *)
+    else if is "field:buf" then
+      match args with [VObj v] => k (VCtor "Buf" [VObj v]) s | _ => stuck f s end
+    else if is ".is_null" then
+      match args with
+      | [x] => match ctor_is "Null" x, ctor_is "Block" x with
+               | Some [], _ => k (VBool true) s
+               | _, Some _ => k (VBool false) s
+               | _, _ => stuck f s
+               end
+      | _ => stuck f s
+      end
+    else if is ".cast::<Header>" || is ".cast::<T>" || is "NonNull::new_unchecked" then
+      match args with [p] => k p s | _ => stuck f s end
+    else if is "null" || is "null_mut" then
+      match args with [] => k (eptr_val PNull) s | _ => stuck f s end
+    else if is ".add" then
+      (* `.add` on the buffer pointer is where the handle is read (buf + count bytes) *)
+      match args with
+      | [p; VInt n] =>
+          match val_eptr p with
+          | Some q => k (eptr_val (padd cfg q n)) s
+          | None =>
+              match ctor_is "BufPtr" p with
+              | Some [VObj v] =>
+                  lift_k (bind (vec_handle v) (fun h =>
+                            ret (match h with Sentinel => PWild | At b off => PElt b (off + n) 0 end))) eptr_val s k
+              | _ => stuck f s
+              end
+          end
+      | _ => stuck f s
+      end
+    (* ---- the global allocator ---- *)
+    else if is "alloc" then
+      match args with
+      | [l] => match ctor_is "Layout" l with
+               | Some [VInt sz; VInt al] => lift_k (do_alloc sz al) ptr_val s k
+               | _ => stuck f s
+               end
+      | _ => stuck f s
+      end
+    else if is "realloc" then
+      match args with
+      | [p; l; VInt ns] =>
+          match ctor_is "BufPtr" p, ctor_is "Layout" l with
+          | Some [VObj v], Some [VInt os; VInt oa] =>
+              lift_k (bind (vec_handle v) (fun h => do_realloc h os oa ns)) ptr_val s k
+          | _, _ => stuck f s
+          end
+      | _ => stuck f s
+      end
+    else if is "handle_alloc_error" then
+      match args with
+      | [l] => match ctor_is "Layout" l with
+               | Some [VInt sz; VInt al] => (Fail (FAllocAbort sz al), s)
+               | _ => stuck f s
+               end
+      | _ => stuck f s
+      end
+    (* ---- ptr::read / write / copy / replace, the length word ---- *)
+    else if is "read" then
+      match args with
+      | [p] => match val_eptr p with Some q => lift_k (slot_read cfg q) VInt s k | None => stuck f s end
+      | _ => stuck f s
+      end
+    else if is "write" then
+      match args with
+      | [p; VInt e] => match val_eptr p with Some q => lift_k (slot_write cfg q e) vunit s k | None => stuck f s end
+      | [p; VStruct _ fs] =>
+          (* ptr::write(new_buf.cast::<Header>(), Header { len, cap, alignment }) *)
+          match ctor_is "Block" p, lookup "len" fs, lookup "cap" fs, lookup "alignment" fs with
+          | Some [VObj b], Some (VInt l), Some (VInt c), Some (VInt a) =>
+              lift_k (bind (get_block b) (fun bl =>
+                        bind (if HEADER_SIZE <=? b_size bl then ret tt else ub OutOfBlock) (fun _ =>
+                        put_block b (with_hdr bl l c a)))) vunit s k
+          | _, _, _, _ => stuck f s
+          end
+      | _ => stuck f s
+      end
+    else if is "copy" then
+      match args with
+      | [p; q; VInt n] =>
+          match val_eptr p, val_eptr q with
+          | Some p', Some q' => lift_k (slot_copy cfg p' q' n) vunit s k
+          | _, _ => stuck f s
+          end
+      | _ => stuck f s
+      end
+    else if is "replace" then
+      match args with
+      | [p; VInt e] =>
+          match val_eptr p with
+          | Some q => lift_k (bind (slot_read cfg q) (fun old => bind (slot_write cfg q e) (fun _ => ret old))) VInt s k
+          | None => stuck f s
+          end
+      | _ => stuck f s
+      end
+    else if is ".header_mut" then
+      match args with [VObj v] => k (VCtor "HeaderMut" [VObj v]) s | _ => stuck f s end
+    else if is "set_field:len" || is "add_field:len" || is "sub_field:len" then
+      match args with
+      | [h; VInt n] =>
+          match ctor_is "HeaderMut" h with
+          | Some [VObj v] =>
+              if is "set_field:len" then lift_k (set_len v n) vunit s k
+              else if is "add_field:len" then lift_k (add_len v n) vunit s k
+              else lift_k (add_len v (- n)) vunit s k
+          | _ => stuck f s
+          end
+      | _ => stuck f s
+      end
+    else if is "set:self.buf" then
+      match args with
+      | [p; VObj v] => match ctor_is "Block" p with
+                       | Some [VObj b] => lift_k (set_handle v (Some (At b 0))) vunit s k
+                       | _ => stuck f s
+                       end
+      | _ => stuck f s
+      end
+    else if is "from_raw_parts_mut" then
+      match args with [p; VInt n] => k (VCtor "SliceMut" [p; VInt n]) s | _ => stuck f s end
+    else if is "drop_in_place" then
+      match args with
+      | [x] => match ctor_is "SliceMut" x with
+               | Some [p; VInt n] =>
+                   match val_eptr p with
+                   | Some q => lift_k (bind (read_list cfg q n) (drop_list cfg)) vunit s k
+                   | None => stuck f s
+                   end
+               | _ => stuck f s
+               end
+      | _ => stuck f s
+      end
+    else stuck f s.
 End Prims.
